@@ -12,7 +12,6 @@ DIMS = [
  ('env:MIMALLOC_EAGER_COMMIT_DELAY', ['0', '1', '4']),
  ('env:MIMALLOC_ARENA_EAGER_COMMIT', ['0', '1', '2']),
  ('env:MIMALLOC_ARENA_RESERVE', ['0', '64MiB', '1GiB']),
- ('env:MIMALLOC_DISALLOW_ARENA_ALLOC', ['0', '1']),
  ('env:MIMALLOC_ABANDONED_RECLAIM_ON_FREE', ['0', '1']),
  ('env:MIMALLOC_ABANDONED_PAGE_PURGE', ['0', '1']),
  ('env:MIMALLOC_TARGET_SEGMENTS_PER_THREAD', ['0', '3']),
@@ -22,7 +21,9 @@ DIMS = [
  ('place_policy', ['0', '2']),
  ('auto_advance_ms', ['0', '3', '11']),
 ]
-FAMILIES = ['c01_random', 'c01_pagecycle', 'c01_spanchurn', 'c01_huge', 'c03_align', 'c04_dirty', 'c04_grow', 'c05_realloc', 'c12_holes', 'c12_remote', 'c02_pingpong', 'c09_exit']
+FAMILIES = ['c01_random', 'c01_pagecycle', 'c01_spanchurn', 'c01_huge', 'c03_align', 'c04_dirty', 'c04_grow', 'c05_realloc', 'c12_holes', 'c12_remote', 'c02_pingpong', 'c09_exit', 'c14_arena', 'c02_hugeremote', 'c15_arenas']
+
+CONCURRENT = ('c12_remote', 'c02_pingpong', 'c09_exit', 'c14_arena', 'c02_hugeremote', 'c15_arenas')
 
 def pairwise_rows(seed=12345):
     """greedy pairwise covering array (deterministic)"""
@@ -46,25 +47,32 @@ def pairwise_rows(seed=12345):
         for (i2, j2) in itertools.combinations(range(n), 2): uncovered.discard((i2, best[i2], j2, best[j2]))
     return rows
 
-def row_args(row):
+# An option that switches a whole mechanism off masks every other arena option in its row; it is kept out of the
+# covering array and set in every fourth row instead, so that three quarters of the rows exercise the arenas.
+MASKING = [('env:MIMALLOC_DISALLOW_ARENA_ALLOC', lambda ri: '1' if ri % 4 == 3 else '0')]
+
+def row_args(row, ri=0):
     a = ['auto_advance_every=7']
+    for name, f in MASKING: a.append('%s=%s' % (name, f(ri)))
     for (name, vals), k in zip(DIMS, row): a.append('%s=%s' % (name, vals[k]))
     return a
 
 def jobgen(ctx):
     rows = pairwise_rows()
     tier = ctx['tier']; cov = ctx['cov']
-    cov['pairwise_rows'] = len(rows); cov['option_dimensions'] = len(DIMS)
+    cov['pairwise_rows'] = len(rows); cov['option_dimensions'] = len(DIMS) + len(MASKING)
     builds = ['REL', 'SEC', 'DBG']
-    n_total = 2400 if tier == 'quick' else 200000
-    per = max(1, n_total // (len(rows) * len(FAMILIES)))
+    n_total = 4200 if tier == 'quick' else 200000
+    # concurrent families get twice the seeds of the sequential ones: their outcome also depends on the schedule
+    weight = {f: (2 if f in CONCURRENT else 1) for f in FAMILIES}
+    unit = max(1, n_total // (len(rows) * sum(weight.values())))
     cov['rows_enumerated_completely'] = True
     cov['exhaustive_dimension'] = 'all %d rows of the pairwise covering array are run for every family' % len(rows)
     k = 0
     for ri, row in enumerate(rows):
-        ra = row_args(row)
+        ra = row_args(row, ri)
         for fam in FAMILIES:
-            for rep in range(per):
+            for rep in range(unit * weight[fam]):
                 b = builds[k % 3]; k += 1
                 sd = ctx['seed_of'](ctx['seed'], 'c13/' + fam, ri * 1000 + rep)
                 yield (b, ['--family', fam, '--seed', str(sd)] + ra, fam, sd)
